@@ -89,6 +89,29 @@ theorem rejects_mixed_pools (ps : Pools D) (p : Pool D) (ds : Delegations D) (no
     (p.ty ≠ ps.ty → addPool ps p = .error .pool) ∧ (ds.ty ≠ ps.ty → incorporate ps node ds = .error .pool) := by
   constructor <;> intro h <;> simp [addPool, incorporate, h]
 
+def otherTy : DType → DType | .cap => .lab | .lab => .cap
+
+theorem detailsKey_other_ne (ty : DType) :
+    detailsKey (otherTy ty) ≠ detailsKey ty ∧ fieldPoolId ≠ detailsKey (otherTy ty) := by
+  cases ty <;> exact ⟨by decide, by decide⟩
+
+/-- text written for one delegation type never decodes under the other type as soon as it carries any
+details (a single-resource delegation or a pool definition): `KeyError` on the missing key -/
+theorem decode_rejects_other_type (ops : DetailOps D) (ds : Delegations D) (h : WF ops ds)
+    (d : Delegation D) (hd : d ∈ ds.items) (hfmt : d.fmt ≠ .reference) (r : Delegations D) :
+    (encode ops ds).bind (decode ops (otherTy ds.ty)) ≠ .ok r := by
+  rw [encode_wf ops ds h]
+  simp only [Except.bind, decode]
+  intro hok
+  obtain ⟨b, b', hb⟩ := foldlM_ok_all _ _ _ _ hok (encPure ops ds.ty d) (List.mem_map.mpr ⟨d, hd, rfl⟩)
+  obtain ⟨k1, k2⟩ := detailsKey_other_ne ds.ty
+  have k3 := poolId_ne_detailsKey ds.ty
+  cases hf : d.fmt with
+  | reference => exact hfmt hf
+  | single => simp [encPure, hf, decodeEntry, lookup, k1, k1.symm, k2, k2.symm, k3, poolOf, bind, Except.bind] at hb
+  | definition =>
+    simp [encPure, hf, decodeEntry, lookup, k1, k1.symm, k2, k2.symm, k3, poolOf, bind, Except.bind] at hb
+
 /-- a second delegation under an id already present is rejected -/
 theorem rejects_duplicate_id (ds : Delegations D) (d e : Delegation D) (hty : d.ty = ds.ty)
     (he : e ∈ ds.items) (hid : e.id = d.id) : addDelegation ds d = .error .delegation := by
